@@ -89,6 +89,7 @@ type c18Doc struct {
 	js       []byte
 	negative string
 	thrift   []byte
+	val      *TVal
 }
 
 func runC18(w *W) {
@@ -118,7 +119,7 @@ func runC18(w *W) {
 			textifyBinaries(vg, val)
 		}
 		style := &jsonStyle{t: t, WS: t.Intn(3, "js.ws"), Esc: t.Intn(3, "js.esc"), Num: t.Intn(2, "js.num"), QuoteNums: opts.String2Int64, NoBase64: opts.NoBase64Binary}
-		doc := c18Doc{thrift: encodeThrift(nil, val)}
+		doc := c18Doc{thrift: encodeThrift(nil, val), val: val}
 		if t.Chance(1, 5, "doc.negative") {
 			var cands []*TVal
 			collectVals(val, &cands)
@@ -145,7 +146,31 @@ func runC18(w *W) {
 	}
 	caps := make([]int, nscal)
 	for i := range caps {
-		caps[i] = pickInt(t, "scalar.cap", 0, 1, 8, 31, 32, 33, 4096)
+		// spare capacity of the output buffer at the moment the scalar is written: dense below 48
+		// (the encoders reserve 21 / 32 bytes), plus lane-sized and roomy classes
+		if t.Chance(3, 4, "scalar.cap.dense") {
+			caps[i] = t.Intn(48, "scalar.cap")
+		} else {
+			caps[i] = pickInt(t, "scalar.cap.cls", 63, 64, 65, 4096)
+		}
+	}
+	// sub-values (of every type, scalars included) for the skip comparison, each cut at a tape-chosen prefix
+	type skipCase struct {
+		kind byte
+		b    []byte
+	}
+	var skips []skipCase
+	for _, d := range docs {
+		var subs []*TVal
+		collectVals(d.val, &subs)
+		for k := 0; k < 3 && len(subs) > 0; k++ {
+			sv := subs[t.Intn(len(subs), "skip.sub")]
+			b := encodeThrift(nil, sv)
+			if len(b) > 0 && t.Chance(2, 3, "skip.sub.cut") {
+				b = b[:t.Intn(len(b), "skip.sub.cut.at")]
+			}
+			skips = append(skips, skipCase{sv.T.Kind, b})
+		}
 	}
 	skipCuts := make([]int, len(docs))
 	for i, d := range docs {
@@ -220,6 +245,25 @@ func runC18(w *W) {
 			w.cmpMix([]byte{byte(pg.Read), byte(pg.Read >> 8), byte(pg.Read >> 16)})
 		} else {
 			w.cmpMix([]byte("skip-error"))
+		}
+	}
+
+	for si, sc := range skips {
+		if len(sc.b) == 0 {
+			continue
+		}
+		in := w.AllocData(sc.b, simrt.PlaceGuardEnd)
+		pg := thrift.BinaryProtocol{Buf: in.B}
+		eg := pg.SkipGo(thrift.Type(sc.kind), thrift.MaxSkipDepth)
+		for _, fl := range fls {
+			name := c18Use(fl)
+			w.NextOp(fmt.Sprintf("skip sub-value %d (type %d, %d bytes) under %s", si, sc.kind, len(sc.b), name))
+			pn := thrift.BinaryProtocol{Buf: in.B}
+			en := pn.SkipNative(thrift.Type(sc.kind), thrift.MaxSkipDepth)
+			if (eg != nil) != (en != nil) || (eg == nil && pg.Read != pn.Read) || pn.Read > len(sc.b) {
+				w.Failf("skip-disagree", map[string]string{"flavour": name}, "SkipGo (err=%v, read=%d) and SkipNative/%s (err=%v, read=%d) disagree on a value of type %d: %x", eg, pg.Read, name, en, pn.Read, sc.kind, clipb(sc.b, 200))
+			}
+			w.Count("skip_subvalue_agreement")
 		}
 	}
 
